@@ -59,6 +59,6 @@ structure FileType where
   d253 : TsF
   d254 : TsF
   dropped : List Nat
-  deriving Repr
+  deriving DecidableEq, Repr
 
 end Fit.FileDef
